@@ -41,6 +41,11 @@ var thoroughConfigs = []BuildConfig{
 }
 
 func main() {
+	// the thorough tier type-checks and builds many variants of the program; keep the heap in
+	// check (a soft limit: the collector works harder near it) unless the caller chose one
+	if os.Getenv("GOMEMLIMIT") == "" {
+		debug.SetMemoryLimit(8 << 30)
+	}
 	prop := flag.String("prop", "", "property id (C01..C20) or 'all'")
 	tier := flag.String("tier", "", "quick | thorough (default: $VERIF_TIER or quick)")
 	repo := flag.String("repo", "/repo", "repository to analyse")
@@ -226,7 +231,7 @@ func runProperty(repo, verif, id, tier string, seed int, controls bool) int {
 	}
 	results := make([]*Result, len(cfgs))
 	var wg sync.WaitGroup
-	sem := make(chan struct{}, 4)
+	sem := make(chan struct{}, 3)
 	for i, cfg := range cfgs {
 		wg.Add(1)
 		go func(i int, cfg BuildConfig) {
@@ -234,6 +239,10 @@ func runProperty(repo, verif, id, tier string, seed int, controls bool) int {
 			sem <- struct{}{}
 			defer func() { <-sem }()
 			results[i] = runOne(repo, cfg, nil, id)
+			if i > 0 {
+				// only the first configuration's program is needed later (controls, sweep)
+				results[i].prog = nil
+			}
 		}(i, cfg)
 	}
 	wg.Wait()
